@@ -81,8 +81,11 @@ class M6Result:
     accessory_ltpk: bytes = b""
 
 
-def check_m6(body: bytes, K: bytes) -> M6Result:
-    """What the controller does with M6: decrypt, parse, verify the accessory signature."""
+def check_m6(body: bytes, K: bytes, advertised_id: Optional[bytes] = None) -> M6Result:
+    """What the controller does with M6: decrypt, parse, verify the accessory signature.  With
+    `advertised_id` (the `id` of the accessory's Bonjour TXT record, which is how the controller found
+    it) the identifier in M6 must be that identifier byte for byte and the signature is verified over
+    HKDF(K) | advertised id | accessory LTPK."""
     t = parse(body)
     if t is None or t.get(T_STATE) != b"\x06":
         return M6Result(False, "M6 missing or malformed")
@@ -98,8 +101,11 @@ def check_m6(body: bytes, K: bytes) -> M6Result:
         return M6Result(False, "M6 sub-TLV incomplete")
     acc_id, acc_ltpk, sig = sub[T_IDENTIFIER], sub[T_PUBLIC_KEY], sub[T_SIGNATURE]
     ix = hkdf(K, b"Pair-Setup-Accessory-Sign-Salt", b"Pair-Setup-Accessory-Sign-Info")
+    if advertised_id is not None and acc_id != advertised_id:
+        return M6Result(False, f"M6 identifier {acc_id!r} is not the advertised identifier {advertised_id!r}", acc_id, acc_ltpk)
     try:
-        ed25519.Ed25519PublicKey.from_public_bytes(acc_ltpk).verify(sig, ix + acc_id + acc_ltpk)
+        ed25519.Ed25519PublicKey.from_public_bytes(acc_ltpk).verify(
+            sig, ix + (acc_id if advertised_id is None else advertised_id) + acc_ltpk)
     except (InvalidSignature, ValueError):
         return M6Result(False, "accessory signature invalid", acc_id, acc_ltpk)
     return M6Result(True, "", acc_id, acc_ltpk)
